@@ -755,7 +755,7 @@ pub enum LazyLine {
     Comment,
 }
 
-fn lazy_line(line: &gff::Line, cap: usize) -> Result<LazyLine, String> {
+pub fn lazy_line(line: &gff::Line, cap: usize) -> Result<LazyLine, String> {
     match line.kind() {
         gff::line::Kind::Directive => {
             let d = line.as_directive().ok_or("as_directive() is None for a directive line")?;
